@@ -18,9 +18,22 @@ Correspondence (K), against the Lean model `Model/LowRank.lean` (driver `drv_c10
   * `_low_rank_root`: the model computes the matrix handed to `eigh` (`regularized_input`), numpy's `eigh` of that
     matrix is the external kernel (its specification U U' = 1, U diag(e) U' = M is checked at run time), and the model
     computes the packed root (`low_rank_root`, `Float`); the dense matrices denoted by the implementation's and the
-    model's packed roots, the retained inverse eigenvalues and the constant are compared with TOL(1e-9 x kappa),
+    model's packed roots, the retained inverse eigenvalues and the constant are compared with TOL(1e-12 x kappa),
     kappa = 1 + lambda_max / (gap at the cut) + lambda_max / lambda_min, resp. lambda_max / lambda_i.  `max_ev` is the value the real
     `power_iteration` returns (an external kernel for this property, deterministic).
+
+  * zero ridge + singular statistics (D26, `matrix_epsilon = 0`): positive rank -> only the retained part V diag(e) V' and the
+    retained roots are compared (the null directions' values are ill-posed in floats), negative rank / rank above the matrix
+    rank -> finiteness of the implementation's and of the Float model's root.
+  * exact rational stream (`rootq`, p = 1, absolute epsilon): statistics U diag(lam) U' with U a rational orthogonal matrix
+    (signed permutation, optionally times two Householder reflections of integer vectors), so the eigendecomposition handed to
+    the `Rat` run of the model is EXACT (U U' = 1 and U diag(e) U' = the model's regularized input are checked in exact
+    arithmetic) and the `Rat` run is literally an instance of `low_rank_root_denotes`.  Signed permutations with powers of two
+    (incl. exact zeros with a zero ridge): the implementation must agree bit for bit (V V', V diag(e) V', retained roots,
+    correctly rounded const): EXACT.  Householder: TOL(1e-12 x kappa) against the exact values.
+  * `preconditioned_grad` through `BlockPartitioner` with several ragged blocks (block_size 4..6, dims not multiples of it,
+    rank 1..3, ALL / INPUT / OUTPUT): every block against the model (`Rat` EXACT-DYADIC / `Float` TOL), partition order and
+    `shapes_for_preconditioners` EXACT.
 
 Search oracle (S), numpy only, no reference to the model:
   * unpack(pack(F)) = F bit for bit; pack(unpack(P)) = P for matrices whose unused slots are zero and whose flag is 0/1;
@@ -29,7 +42,7 @@ Search oracle (S), numpy only, no reference to the model:
     flagged axis, the dense matrix along a dense axis), bit for bit on dyadic inputs, TOL(1e-12 x norm bound) otherwise;
   * the dense matrix denoted by the packed root equals, on the unpadded dimensions, Q diag(f) Q' with Q, lambda = numpy's
     eigendecomposition of (masked statistics + ridge I), f_i = max(lambda_i, ridge)^(-1/p) on the |r| retained (largest; smallest
-    for r < 0) directions and the mean of the others elsewhere; unpadded-to-padded blocks vanish: TOL(1e-9 x kappa).
+    for r < 0) directions and the mean of the others elsewhere; unpadded-to-padded blocks vanish: TOL(1e-12 x kappa).
 """
 import json
 import os
@@ -40,6 +53,7 @@ from fractions import Fraction
 from harness import kit
 
 FILE = "distributed_shampoo.py"
+ROOT_TOL = 1e-12          # x kappa (measured errors stay below 1e-3 of this allowance)
 
 
 # ----------------------------------------------------------------------------- number transport
@@ -119,26 +133,107 @@ def mat_apply(case):
         basis = flat[:k]
         coef = rs.randint(-2, 3, size=(shape[0], k)).astype(np.float64)
         g = (coef @ basis).reshape(shape)
-    axes = []
-    for d, kind in zip(shape, case["kinds"]):
-        if kind == "roll":
-            axes.append(("roll",))
-        elif kind == "dense":
-            P = rs.randint(-2, 3, size=(d, d)).astype(np.float64) if dy else rs.standard_normal((d, d))
-            axes.append(("dense", P))
-        else:
-            if dy:
-                V = rs.randint(-1, 2, size=(d, r)).astype(np.float64)
-                e = rs.randint(-4, 5, size=r) / 2.0
-                c = float(rs.randint(-4, 5)) / 2.0
-                tail, ev = float(rs.randint(1, 9)), rs.randint(1, 9, size=r).astype(np.float64)
-            else:
-                V = _orth(rs, d)[:, :r] if rs.rand() < 0.7 else rs.standard_normal((d, r)) * 0.7
-                e = np.abs(rs.standard_normal(r)) * 10.0 ** rs.randint(-2, 3) + 0.01
-                c = float(abs(rs.standard_normal()) * 10.0 ** rs.randint(-2, 2) + 0.01)
-                tail, ev = float(rs.rand() + 0.5), rs.rand(r) + 0.5
-            axes.append(("packed", V, e, c, tail, ev, kind == "packed_flagged"))
+    axes = [_axis_np(rs, d, r, kind, dy) for d, kind in zip(shape, case["kinds"])]
     return g, axes
+
+
+def _axis_np(rs, d, r, kind, dy):
+    import numpy as np
+    if kind == "roll":
+        return ("roll",)
+    if kind == "dense":
+        P = rs.randint(-2, 3, size=(d, d)).astype(np.float64) if dy else rs.standard_normal((d, d))
+        return ("dense", P)
+    if dy:
+        V = rs.randint(-1, 2, size=(d, r)).astype(np.float64)
+        e = rs.randint(-4, 5, size=r) / 2.0
+        c = float(rs.randint(-4, 5)) / 2.0
+        tail, ev = float(rs.randint(1, 9)), rs.randint(1, 9, size=r).astype(np.float64)
+    else:
+        V = _orth(rs, d)[:, :r] if rs.rand() < 0.7 else rs.standard_normal((d, r)) * 0.7
+        e = np.abs(rs.standard_normal(r)) * 10.0 ** rs.randint(-2, 3) + 0.01
+        c = float(abs(rs.standard_normal()) * 10.0 ** rs.randint(-2, 2) + 0.01)
+        tail, ev = float(rs.rand() + 0.5), rs.rand(r) + 0.5
+    return ("packed", V, e, c, tail, ev, kind == "packed_flagged")
+
+
+def block_layout(shape, b):
+    """blocks of BlockPartitioner in itertools.product order (first axis slowest): list of tuples of slices"""
+    import itertools
+    per_axis = []
+    for d in shape:
+        if b <= 0 or d <= b:
+            per_axis.append([slice(0, d)])
+        else:
+            cuts = list(range(0, d, b))
+            per_axis.append([slice(c0, min(c0 + b, d)) for c0 in cuts])
+    return list(itertools.product(*per_axis))
+
+
+def spd_of(ptype, nd):
+    if ptype == "ALL" or nd <= 1:
+        return [True] * nd
+    return [True] * (nd - 1) + [False] if ptype == "INPUT" else [False] * (nd - 1) + [True]
+
+
+def mat_mblock(case):
+    """gradient, and per block (product order) its slices and per-axis ops"""
+    import numpy as np
+    rs = np.random.RandomState(case["seed"])
+    shape, r, b = case["shape"], abs(case["rank"]), case["block"]
+    dy = case["ty"] == "rat"
+    g = rs.randint(-3, 4, size=shape).astype(np.float64) * 2.0 ** rs.randint(-2, 3) if dy else rs.standard_normal(shape) * 10.0 ** rs.randint(-2, 3)
+    spd = spd_of(case["ptype"], len(shape))
+    blocks = []
+    for sl in block_layout(shape, b):
+        axes = []
+        for s_, on in zip(sl, spd):
+            bd = s_.stop - s_.start
+            kind = "roll" if not on else (("packed_flagged" if rs.rand() < 0.15 else "packed") if pdim(r, bd) else "dense")
+            axes.append(_axis_np(rs, bd, r, kind, dy))
+        blocks.append((sl, axes))
+    return g, blocks
+
+
+# ---- exact rational statistics with a known exact eigendecomposition (p = 1)
+def _fmm(A, B):
+    return [[sum(A[i][k] * B[k][j] for k in range(len(B))) for j in range(len(B[0]))] for i in range(len(A))]
+
+
+def _ft(A):
+    return [list(r) for r in zip(*A)]
+
+
+def mat_rootq(case):
+    """(U n x n rational orthogonal, lam ascending, A d x d) as Fractions; A[:n,:n] = U diag(lam) U'"""
+    F = Fraction
+    rg = random.Random(case["seed"])
+    n, d = case["n"], case["d"]
+    lam = [F(x) for x in case["spectrum"]]
+    perm = list(range(n))
+    rg.shuffle(perm)
+    U = [[F(0)] * n for _ in range(n)]
+    for j in range(n):
+        U[perm[j]][j] = F(rg.choice([-1, 1]))
+    if case["sub"] == "house":
+        for _ in range(2):
+            v = [F(rg.randint(-2, 2)) for _ in range(n)]
+            if not any(v):
+                v[0] = F(1)
+            vv = sum(x * x for x in v)
+            H = [[(F(1) if i == j else F(0)) - 2 * v[i] * v[j] / vv for j in range(n)] for i in range(n)]
+            U = _fmm(H, U)
+    UL = [[U[i][j] * lam[j] for j in range(n)] for i in range(n)]
+    An = _fmm(UL, _ft(U))
+    A = [[F(0)] * d for _ in range(d)]
+    if case.get("garbage") and n < d:
+        for i in range(d):
+            for j in range(i, d):
+                A[i][j] = A[j][i] = F(rg.randint(-8, 8), 4)
+    for i in range(n):
+        for j in range(n):
+            A[i][j] = An[i][j]
+    return U, lam, A
 
 
 def mat_root(case):
@@ -226,7 +321,7 @@ def gen_root(rng, i):
     else:
         n, ps = d, None
     p = rng.choice([1, 2, 2, 3, 4, 4, 6, 8])
-    kind = rng.choice(["geometric", "clustered", "rankdef", "uniform"])
+    kind = rng.choice(["geometric", "clustered", "rankdef", "uniform", "uniform", "singular0"])
     scale = 10.0 ** rng.choice([-3, 0, 0, 2])
     cut = r if neg else n - r                          # ascending index where the retained set starts / ends
     if kind == "geometric":
@@ -236,7 +331,7 @@ def gen_root(rng, i):
         lo = [0.5 * (1 + 1e-9 * rng.randint(0, 5)) for _ in range(cut)]
         hi = [5.0 * (1 + 1e-9 * rng.randint(0, 5)) for _ in range(n - cut)]
         lam = sorted(lo + hi)
-    elif kind == "rankdef":
+    elif kind in ("rankdef", "singular0"):
         nz = rng.randint(1, cut) if cut >= 1 else 0
         lam = sorted([0.0] * nz + [rng.uniform(0.5, 1.0) for _ in range(cut - nz)] + [rng.uniform(2.0, 6.0) for _ in range(n - cut)])
     else:
@@ -245,9 +340,63 @@ def gen_root(rng, i):
     ridge_eps = rng.choice([1e-6, 1e-6, 1e-3, 1e-12, 0.0])
     if kind == "rankdef" and ridge_eps < 1e-6:
         ridge_eps = 1e-6
-    return {"kind": "root", "id": f"r{i}", "d": d, "n": n, "ps": ps, "rank": -r if neg else r, "p": p,
+    mode = "full"
+    if kind == "singular0":      # matrix_epsilon = 0 and singular statistics (D26): the null directions are ill-posed
+        ridge_eps = 0.0
+        mode = "finite" if neg else "retained"
+    return {"kind": "root", "mode": mode, "id": f"r{i}", "d": d, "n": n, "ps": ps, "rank": -r if neg else r, "p": p,
             "spectrum": lam, "spec_kind": kind, "ridge_eps": ridge_eps, "rel": rng.random() < 0.6,
             "garbage": rng.random() < 0.3, "jit": rng.random() < 0.25, "seed": rng.randint(0, 2 ** 31 - 1)}
+
+
+def gen_mblock(rng, i):
+    """public path with several ragged blocks and compression"""
+    r = rng.choice([1, 1, 2])
+    b = rng.choice([r + 3, r + 3, r + 4])
+    nd = rng.choice([1, 2, 2, 3])
+    while True:
+        shape = [rng.choice([b + 1, b + 2, 2 * b - 1, 2 * b + 1, 2 * b + 3, 3 * b - 2, r + 2, 3]) for _ in range(nd)]
+        n = 1
+        for x in shape:
+            n *= x
+        if n <= 600 and any(x > b for x in shape):
+            break
+    return {"kind": "mblock", "id": f"m{i}", "shape": shape, "block": b, "rank": r * rng.choice([1, -1]),
+            "ty": rng.choice(["rat", "f64"]), "ptype": rng.choice(["ALL", "ALL", "ALL", "INPUT", "OUTPUT"]),
+            "jit": rng.random() < 0.15, "seed": rng.randint(0, 2 ** 31 - 1)}
+
+
+def gen_rootq(rng, i):
+    """rational statistics with an exactly known eigendecomposition, p = 1, absolute epsilon"""
+    F = Fraction
+    sub = rng.choice(["perm", "perm", "house"])
+    d = rng.randint(4, 8 if sub == "perm" else 7)
+    r = rng.randint(1, d - 3)
+    neg = rng.random() < 0.5
+    if rng.random() < 0.6:
+        n = rng.randint(r + 3, d)
+        ps = n
+    else:
+        n, ps = d, None
+    if sub == "perm":
+        ridge = rng.choice([F(0), F(0), F(1, 1024)])
+        ks = sorted(rng.sample(range(-4, 6), n))
+        e = [F(2) ** k for k in ks]                     # eigenvalues of the regularized statistics: powers of two
+        if ridge == 0:                                  # singular statistics with a zero ridge, exactly (D26)
+            zmax = (n - r) if not neg else (r if n == d else 0)
+            z = rng.randint(0, zmax) if rng.random() < 0.6 else 0
+            e = [F(0)] * z + e[z:]
+    else:
+        ridge = rng.choice([F(0), F(1, 1024), F(1, 2 ** 20)])
+        cut = r if neg else n - r
+        e, x = [], F(rng.randint(1, 4), 8)
+        for k in range(n):
+            e.append(x)
+            x += F(rng.randint(8, 16), 8) if k + 1 == cut else F(rng.randint(1, 6), 8)
+    lam = [x - ridge if x != 0 else F(0) for x in e]
+    return {"kind": "rootq", "id": f"q{i}", "sub": sub, "d": d, "n": n, "ps": ps, "rank": -r if neg else r,
+            "spectrum": [kit.rat_str(x) for x in lam], "ridge": kit.rat_str(ridge), "garbage": rng.random() < 0.3,
+            "jit": rng.random() < 0.2, "seed": rng.randint(0, 2 ** 31 - 1)}
 
 
 def corpus_cases():
@@ -342,6 +491,37 @@ def _impl_root(ds, jax, jnp, np, case, tol):
             "V": hx(V), "e": hx(e), "c": hx([float(c)])[0], "skip": bool(skip)}
 
 
+def _impl_mblock(ds, jax, jnp, np, case):
+    g, blocks = mat_mblock(case)
+    rank = case["rank"]
+    pre = ds.Preconditioner(jnp.zeros(case["shape"]), case["block"], 1, False, getattr(ds.PreconditionerType, case["ptype"]), rank)
+    preconds = [[None if ax[0] == "roll" else _build_precond(ds, jnp, ax, rank) for ax in axes] for _sl, axes in blocks]
+    plist = [p_ for blk in preconds for p_ in blk if p_ is not None]
+    fn = lambda gg, pl: pre.preconditioned_grad(gg, pl)   # noqa: E731
+    if case["jit"]:
+        fn = jax.jit(fn)
+    out = np.asarray(fn(jnp.asarray(g), plist))
+    parts = pre._partitioner.partition(jnp.asarray(g))
+    return {"out": hx(out), "out_shape": list(out.shape),
+            "preconds": [[None if p_ is None else {"shape": list(p_.shape), "data": hx(p_)} for p_ in blk] for blk in preconds],
+            "pshapes": [list(map(int, s_)) for s_ in pre.shapes_for_preconditioners()],
+            "spd": [bool(x) for x in pre.should_precondition_dims()],
+            "parts": [{"shape": list(t.shape), "data": hx(t)} for t in parts]}
+
+
+def _impl_rootq(ds, jax, jnp, np, case, tol):
+    _U, _lam, A = mat_rootq(case)
+    Af = np.array([[float(x) for x in row] for row in A])
+    ps, rank, ridge = case["ps"], case["rank"], float(Fraction(case["ridge"]))
+    kw = dict(compression_rank=rank, ridge_epsilon=ridge, error_tolerance=tol, relative_matrix_epsilon=False)
+    if case["jit"] and ps is not None:
+        P = jax.jit(lambda a, s_: ds._low_rank_root(a, 1, padding_start=s_, **kw)[0])(jnp.asarray(Af), jnp.asarray(ps, jnp.int32))
+    else:
+        P = ds._low_rank_root(jnp.asarray(Af), 1, padding_start=ps, **kw)[0]
+    P = np.asarray(P)
+    return {"P": hx(P), "P_shape": list(P.shape), "A_exact": all(Fraction(float(x)) == x for row in A for x in row)}
+
+
 def run_impl(task):
     import contextlib
     import io
@@ -361,6 +541,10 @@ def run_impl(task):
                     obs = _impl_pack(ds, jnp, np, case)
                 elif case["kind"] == "apply":
                     obs = _impl_apply(ds, jax, jnp, np, case)
+                elif case["kind"] == "mblock":
+                    obs = _impl_mblock(ds, jax, jnp, np, case)
+                elif case["kind"] == "rootq":
+                    obs = _impl_rootq(ds, jax, jnp, np, case, task["tol"])
                 else:
                     obs = _impl_root(ds, jax, jnp, np, case, task["tol"])
         except Exception as e:  # noqa: BLE001
@@ -412,7 +596,9 @@ def root_expected(case, A, max_ev, tol):
     ridge = case["ridge_eps"] * (max(max_ev, tol) if case["rel"] else max(1.0, tol))
     B = A[:n, :n] + ridge * np.eye(n)
     lam, Q = np.linalg.eigh(B)
-    f = np.maximum(lam, ridge) ** (-1.0 / p)
+    cl = np.maximum(lam, ridge)
+    with np.errstate(divide="ignore", invalid="ignore"):
+        f = np.where((lam == 0.0) | (cl <= 0.0), 0.0, np.where(cl > 0, cl, 1.0) ** (-1.0 / p))
     keep = np.arange(n - r, n) if rank > 0 else np.arange(0, r)
     other = np.setdiff1d(np.arange(n), keep)
     c = float(np.mean(f[other]))
@@ -420,8 +606,9 @@ def root_expected(case, A, max_ev, tol):
     D = (Qk * f[keep]) @ Qk.T + c * (np.eye(n) - Qk @ Qk.T)
     gap = float(lam[n - r] - lam[n - r - 1]) if rank > 0 else float(lam[r] - lam[r - 1])
     lmax = float(lam[-1])
-    return {"D": D, "f_keep": np.sort(f[keep]), "lam_keep": lam[keep][np.argsort(f[keep])], "c": c, "ridge": ridge,
-            "gap": gap, "lmax": lmax, "lmin": float(max(lam[0], ridge)), "fmax": float(f.max())}
+    return {"D": D, "R": (Qk * f[keep]) @ Qk.T, "f_keep": np.sort(f[keep]), "lam_keep": lam[keep][np.argsort(f[keep])], "c": c,
+            "ridge": ridge, "gap": gap, "lmax": lmax, "lmin": float(max(lam[0], ridge, 1e-300)), "fmax": float(f.max()),
+            "fmax_keep": float(f[keep].max())}
 
 
 # ----------------------------------------------------------------------------- evaluation
@@ -619,70 +806,271 @@ def eval_root(ctx, case, obs, rep1, rep2, tol, stats):
     Am[n:, :] = 0.0
     Am[:, n:] = 0.0
     X = root_expected(case, Am, kit.hex_f64(obs["max_ev"]), tol)
-    # conditioning: rotation of the retained subspace (gap at the cut) and relative accuracy of the smallest eigenvalue
-    kappa = 1.0 + X["lmax"] / max(X["gap"], 1e-300) + X["lmax"] / X["lmin"]
-    tolD = 1e-9 * X["fmax"] * kappa
-    tolc = 1e-9 * X["fmax"] * (X["lmax"] / X["lmin"])
+    mode = case.get("mode", "full")
     P = unhx(obs["P"], obs["P_shape"])
     V, e, c = unhx(obs["V"], (d, r)), unhx(obs["e"]), kit.hex_f64(obs["c"])
-    D = denote_np(V, e, c)
-    # ---- correspondence with the Float model (numpy eigh as the kernel)
     Pm = unhx(rep2["P"], (d, r + 2))
     Vm, em, cm = Pm[:, :r], Pm[:r, -2], Pm[0, -1]
-    Dm = denote_np(Vm, em, cm)
-    tole = 1e-9 * np.sort(e) * (X["lmax"] / np.maximum(X["lam_keep"], X["ridge"] if X["ridge"] > 0 else 1e-300))
-    errs = {"dense": float(np.max(np.abs(D - Dm))), "inv": float(np.max(np.abs(np.sort(e) - np.sort(em)) - tole)),
-            "const": abs(c - cm)}
-    ok = obs["P_shape"] == [d, r + 2] and errs["dense"] <= tolD and errs["inv"] <= 0 and errs["const"] <= tolc
-    # slots the root never writes are zero in both
-    rest_i = P.copy()
-    rest_i[:, :r] = 0
-    rest_i[:r, -2] = 0
-    rest_i[0, -1] = 0
-    rest_m = Pm.copy()
-    rest_m[:, :r] = 0
-    rest_m[:r, -2] = 0
-    rest_m[0, -1] = 0
-    ok = ok and not rest_i.any() and not rest_m.any()
-    _cmp(ctx, "_low_rank_root vs Float model [TOL 1e-9 x kappa]", ok, case, {"e": list(map(float, e)), "c": c}, {"e": list(map(float, em)), "c": float(cm)},
-         f"errors {errs}, allowed dense {tolD}, const {tolc}")
-    # ---- direct oracle
+    shape_ok = obs["P_shape"] == [d, r + 2]
+    rest_i, rest_m = P.copy(), Pm.copy()      # slots the root never writes are zero in both
+    for M in (rest_i, rest_m):
+        M[:, :r] = 0
+        M[:r, -2] = 0
+        M[0, -1] = 0
+    basic = []
+    if obs["skip"]:
+        basic.append("packed root is flagged has_zeros")
+    if not np.all(np.isfinite(P)):
+        basic.append("packed root is not finite")
+    if not shape_ok:
+        basic.append(f"packed root has shape {obs['P_shape']}")
     ctx.cov["search_evaluations"] += 1
-    bad = []
-    eD = float(np.max(np.abs(D[:n, :n] - X["D"])))
+    if mode == "finite":
+        # zero ridge, singular statistics, null directions among the retained ones: their root values are ill-posed
+        # (0 for a rounding-negative eigenvalue, huge for a rounding-positive one); the statement left is finiteness.
+        _cmp(ctx, "zero ridge, singular: Float model root finite", bool(np.all(np.isfinite(Pm))) and not rest_m.any(), case, None, None)
+        if basic or rest_i.any():
+            stats["violations:root"] += 1
+            ctx.violation("; ".join(basic or ["unused slots of the packed root are not zero"]) +
+                          f" (zero ridge, singular statistics; d={d}, padding_start={case['ps']}, compression_rank={rank}, p={case['p']})", {"case": case})
+        ctx.nontrivial(("root", d, case["ps"], rank, case["p"], case["spec_kind"], case["seed"]))
+        return
+    # conditioning: rotation of the retained subspace (gap at the cut) and relative accuracy of the smallest eigenvalue
+    lam_keep_min = float(max(np.min(X["lam_keep"]), 1e-300))
+    if mode == "retained":
+        kappa = 1.0 + X["lmax"] / max(X["gap"], 1e-300) + X["lmax"] / lam_keep_min
+        tolD = ROOT_TOL * X["fmax_keep"] * kappa
+        tolc = float("inf")
+        D, Dm, Dx = (V * e) @ V.T, (Vm * em) @ Vm.T, X["R"]
+    else:
+        kappa = 1.0 + X["lmax"] / max(X["gap"], 1e-300) + X["lmax"] / X["lmin"]
+        tolD = ROOT_TOL * X["fmax"] * kappa
+        tolc = ROOT_TOL * X["fmax"] * (X["lmax"] / X["lmin"])
+        D, Dm, Dx = denote_np(V, e, c), denote_np(Vm, em, cm), X["D"]
+    # ---- correspondence with the Float model (numpy eigh as the kernel)
+    tole = ROOT_TOL * np.sort(e) * (X["lmax"] / np.maximum(X["lam_keep"], 1e-300))
+    errs = {"dense": float(np.max(np.abs(D - Dm))), "inv": float(np.max(np.abs(np.sort(e) - np.sort(em)) - tole)),
+            "const": abs(c - cm) if mode == "full" else 0.0}
+    ok = shape_ok and errs["dense"] <= tolD and errs["inv"] <= 0 and errs["const"] <= tolc
+    ok = ok and not rest_i.any() and not rest_m.any() and bool(np.all(np.isfinite(Pm)))
+    _cmp(ctx, "_low_rank_root vs Float model [TOL 1e-12 x kappa]", ok, case, {"e": list(map(float, e)), "c": c}, {"e": list(map(float, em)), "c": float(cm)},
+         f"errors {errs}, allowed dense {tolD}, const {tolc}, mode {mode}")
+    # ---- direct oracle
+    bad = list(basic)
+    eD = float(np.max(np.abs(D[:n, :n] - Dx)))
+    what = "dense matrix denoted by the packed root" if mode == "full" else "retained part V diag(e) V' of the packed root"
     if eD > tolD:
-        bad.append(f"dense matrix denoted by the packed root differs from Q diag(f) Q' on the unpadded block by {eD} (allowed {tolD})")
+        bad.append(f"{what} differs from Q diag(f) Q' on the unpadded block by {eD} (allowed {tolD})")
     if n < d:
         eo = float(np.max(np.abs(D[:n, n:])))
         if eo > tolD:
             bad.append(f"unpadded/padded block of the denoted matrix is {eo} (allowed {tolD})")
     ef = np.abs(np.sort(e) - X["f_keep"])
-    tolf = 1e-9 * X["f_keep"] * (X["lmax"] / np.maximum(X["lam_keep"], 1e-300))
+    tolf = ROOT_TOL * X["f_keep"] * (X["lmax"] / np.maximum(X["lam_keep"], 1e-300))
     if np.any(ef > tolf):
         bad.append(f"retained inverse roots {list(np.sort(e))} differ from lambda^(-1/p) = {list(X['f_keep'])}")
-    if abs(c - X["c"]) > tolc:
+    if mode == "full" and abs(c - X["c"]) > tolc:
         bad.append(f"const {c} differs from the mean {X['c']} of the other roots over the unpadded dimensions")
-    if obs["skip"]:
-        bad.append("packed root is flagged has_zeros")
-    if not np.all(np.isfinite(P)):
-        bad.append("packed root is not finite")
     stats["root_max_err_over_tol"] = max(stats.get("root_max_err_over_tol", 0.0), eD / tolD)
+    if mode == "full" and tolc > 0:
+        stats["root_const_max_err_over_tol"] = max(stats.get("root_const_max_err_over_tol", 0.0), abs(c - X["c"]) / tolc)
+    stats["root_inv_max_err_over_tol"] = max(stats.get("root_inv_max_err_over_tol", 0.0), float(np.max(ef / np.maximum(tolf, 1e-300))))
     if bad:
         stats["violations:root"] += 1
-        ctx.violation("; ".join(bad[:3]) + f" (d={d}, padding_start={case['ps']}, compression_rank={rank}, p={case['p']})", {"case": case})
+        ctx.violation("; ".join(bad[:3]) + f" (d={d}, padding_start={case['ps']}, compression_rank={rank}, p={case['p']}, mode={mode})", {"case": case})
     ctx.nontrivial(("root", d, case["ps"], rank, case["p"], case["spec_kind"], case["seed"]))
+
+
+# ----------------------------------------------------------------------------- multi-block public path
+def _block_req(ty, bshape, axes, pobs, rank):
+    enc = rats if ty == "rat" else hx
+    ops = []
+    for ax, d, pr in zip(axes, bshape, pobs):
+        if ax[0] == "roll":
+            ops.append({"kind": "roll"})
+            continue
+        P = unhx(pr["data"])
+        if pr["shape"][0] != pr["shape"][1]:
+            ops.append({"kind": "packed", "r": abs(rank), "P": enc(P)})
+        else:
+            ops.append({"kind": "dense", "d": d, "P": enc(P)})
+    return ops
+
+
+def mblock_requests(case, obs):
+    g, blocks = mat_mblock(case)
+    enc = rats if case["ty"] == "rat" else hx
+    reqs = []
+    for (sl, axes), pobs in zip(blocks, obs["preconds"]):
+        gb = g[sl]
+        reqs.append({"op": "apply_block", "ty": case["ty"], "shape": list(gb.shape), "g": enc(gb),
+                     "ops": _block_req(case["ty"], gb.shape, axes, pobs, case["rank"])})
+    return reqs
+
+
+def eval_mblock(ctx, case, obs, reps, stats):
+    import numpy as np
+    if "exception" in obs:
+        return _fail_infra(ctx, case, obs, stats)
+    g, blocks = mat_mblock(case)
+    shape, r = case["shape"], abs(case["rank"])
+    ctx.evaluated()
+    npk = sum(1 for _sl, axes in blocks for ax in axes if ax[0] == "packed" and not ax[6])
+    ctx.dist(f"mblock:{case['ty']}:rank{len(shape)}:blocks{len(blocks)}:{case['ptype']}" + (":jit" if case["jit"] else ""))
+    spd = spd_of(case["ptype"], len(shape))
+    want = [[s_.stop - s_.start, (r + 2) if pdim(r, s_.stop - s_.start) else s_.stop - s_.start]
+            for sl, _ in blocks for s_, on in zip(sl, spd) if on]
+    parts_ok = len(obs["parts"]) == len(blocks) and all(
+        pt["shape"] == list(g[sl].shape) and pt["data"] == hx(g[sl]) for pt, (sl, _a) in zip(obs["parts"], blocks))
+    lay_ok = obs["pshapes"] == want and obs["spd"] == spd and parts_ok
+    _cmp(ctx, "multi-block layout: partition order and shapes_for_preconditioners [EXACT]", lay_ok, case, [obs["pshapes"], obs["spd"]], want)
+    shape_ok = obs["out_shape"] == shape
+    out = unhx(obs["out"], obs["out_shape"])
+    exp = np.zeros(shape)
+    bound = 0.0
+    for sl, axes in blocks:
+        eb, bb = apply_expected(g[sl], axes)
+        exp[sl] = eb
+        bound = max(bound, bb)
+    tol = 1e-12 * bound
+    name = "preconditioned_grad (several blocks) vs %s model per block [%s]" % (("Rat", "EXACT-DYADIC") if case["ty"] == "rat" else ("Float", "TOL 1e-12 x bound"))
+    ok = shape_ok
+    if shape_ok:
+        for (sl, _axes), rep in zip(blocks, reps):
+            ob = out[sl]
+            if case["ty"] == "rat":
+                ok = ok and rats(ob) == rep["packed"] and rep["packed"] == rep["denoted"]
+            else:
+                ok = ok and float(np.max(np.abs(ob - unhx(rep["packed"], ob.shape)))) <= tol
+    _cmp(ctx, name, ok, case, hx(out)[:20], [rp["packed"][:8] for rp in reps][:4])
+    ctx.cov["search_evaluations"] += 1
+    if case["ty"] == "rat":
+        good = shape_ok and np.array_equal(out, exp)
+    else:
+        good = shape_ok and float(np.max(np.abs(out - exp))) <= tol
+    if not good:
+        err = float(np.max(np.abs(out - exp))) if shape_ok else float("inf")
+        stats["violations:mblock"] += 1
+        ctx.violation(f"preconditioned_grad over {len(blocks)} blocks (shape {shape}, block_size {case['block']}, compression_rank {case['rank']}, "
+                      f"{case['ptype']}) differs from the blockwise g x_a (c(I - VV') + V diag(e) V'): max abs diff {err} "
+                      f"(allowed {0.0 if case['ty'] == 'rat' else tol})", {"case": case})
+    if npk:
+        ctx.nontrivial(("mblock", tuple(shape), case["block"], case["rank"], case["ty"], case["ptype"], case["seed"]))
+
+
+# ----------------------------------------------------------------------------- exact rational root stream (p = 1)
+def rootq_req1(case, tol):
+    _U, _lam, A = mat_rootq(case)
+    return {"op": "regularized_input", "ty": "rat", "d": case["d"], "A": [kit.rat_str(x) for row in A for x in row], "ps": case["ps"],
+            "ridge_eps": case["ridge"], "max_ev": "1", "tol": kit.rat_str(Fraction(tol))}
+
+
+def rootq_eig(case):
+    """exact eigendecomposition of the regularized, masked statistics: the d - n padded coordinates first (eigenvalue 0),
+    then the columns of U with lam + ridge ascending"""
+    F = Fraction
+    U, lam, _A = mat_rootq(case)
+    d, n = case["d"], case["n"]
+    ridge = F(case["ridge"])
+    e = [F(0)] * (d - n) + [x + ridge for x in lam]
+    Uf = [[F(0)] * d for _ in range(d)]
+    for k in range(d - n):
+        Uf[n + k][k] = F(1)
+    for i in range(n):
+        for j in range(n):
+            Uf[i][d - n + j] = U[i][j]
+    return e, Uf
+
+
+def rootq_req2(case, rep1):
+    """the exact `eigh`: specification checked exactly against the matrix the Rat model built"""
+    F = Fraction
+    d = case["d"]
+    e, Uf = rootq_eig(case)
+    M = [[F(rep1["M"][i * d + j]) for j in range(d)] for i in range(d)]
+    I = [[F(1) if i == j else F(0) for j in range(d)] for i in range(d)]
+    UE = [[Uf[i][j] * e[j] for j in range(d)] for i in range(d)]
+    spec = _fmm(Uf, _ft(Uf)) == I and _fmm(UE, _ft(Uf)) == M and all(e[k] <= e[k + 1] for k in range(d - 1)) \
+        and F(rep1["ridge"]) == F(case["ridge"])
+    return spec, {"op": "low_rank_root", "ty": "rat", "d": d, "r": abs(case["rank"]), "neg": case["rank"] < 0, "ps": case["ps"],
+                  "ridge": rep1["ridge"], "p": 1, "e": [kit.rat_str(x) for x in e], "U": [kit.rat_str(x) for row in Uf for x in row]}
+
+
+def eval_rootq(ctx, case, obs, spec_ok, rep2, stats):
+    import numpy as np
+    F = Fraction
+    if "exception" in obs:
+        return _fail_infra(ctx, case, obs, stats)
+    if "error" in rep2 or "err" in rep2:
+        raise kit.InfraError(f"driver: {rep2} on case {case['id']}")
+    d, n, rank = case["d"], case["n"], case["rank"]
+    r = abs(rank)
+    ctx.evaluated()
+    ctx.dist(f"rootq:{case['sub']}:{'neg' if rank < 0 else 'pos'}:{'padded' if n < d else 'full'}:ridge{case['ridge']}")
+    _cmp(ctx, "exact eigh of the Rat model's regularized input satisfies the specification [EXACT]", spec_ok, case, None, None)
+    if not spec_ok:
+        return
+    Pm = [[F(rep2["P"][i * (r + 2) + j]) for j in range(r + 2)] for i in range(d)]
+    Vm = [row[:r] for row in Pm]
+    em = [Pm[q][r] for q in range(r)]
+    cm = Pm[0][r + 1]
+    P = unhx(obs["P"], obs["P_shape"])
+    shape_ok = obs["P_shape"] == [d, r + 2] and bool(np.all(np.isfinite(P)))
+    ctx.cov["search_evaluations"] += 1
+    if not shape_ok:
+        stats["violations:rootq"] += 1
+        ctx.violation(f"packed root has shape {obs['P_shape']} / is not finite on exact rational statistics", {"case": case})
+        return
+    V, e, c = P[:, :r], P[:r, -2], float(P[0, -1])
+    rest = P.copy()
+    rest[:, :r] = 0
+    rest[:r, -2] = 0
+    rest[0, -1] = 0
+    if case["sub"] == "perm":
+        # everything is exactly representable: the implementation must reproduce the proven Rat instance bit for bit
+        # (eigenvector signs and the order inside an eigenspace are free: compare V V' and V diag(e) V')
+        Vi = [[F(float(x)) for x in row] for row in V]
+        ei = [F(float(x)) for x in e]
+        VVi = _fmm(Vi, _ft(Vi))
+        VEi = _fmm([[Vi[a][q] * ei[q] for q in range(r)] for a in range(d)], _ft(Vi))
+        VVm = _fmm(Vm, _ft(Vm))
+        VEm = _fmm([[Vm[a][q] * em[q] for q in range(r)] for a in range(d)], _ft(Vm))
+        ok = obs["A_exact"] and VVi == VVm and VEi == VEm and sorted(ei) == sorted(em) and c == float(cm) and not rest.any()
+        _cmp(ctx, "_low_rank_root vs Rat model, exact eigh, p = 1 [EXACT]", ok, case,
+             {"e": list(map(float, e)), "c": c}, {"e": [str(x) for x in em], "c": str(cm)},
+             "V V', V diag(e) V', the retained roots as a multiset and the correctly rounded const must coincide")
+        if ok and any(F(x) == 0 for x in case["spectrum"]) and F(case["ridge"]) == 0:
+            stats["exact_zero_ridge_singular"] += 1
+    else:
+        ev = sorted(float(x + F(case["ridge"])) for x in (F(y) for y in case["spectrum"]))
+        cut = r if rank < 0 else n - r
+        gap = ev[cut] - ev[cut - 1]
+        fmax = 1.0 / ev[0]
+        kappa = 1.0 + ev[-1] / gap + ev[-1] / ev[0]
+        tolD = ROOT_TOL * fmax * kappa
+        Vmf = np.array([[float(x) for x in row] for row in Vm])
+        emf = np.array([float(x) for x in em])
+        Dm = denote_np(Vmf, emf, float(cm))
+        D = denote_np(V, e, c)
+        errD = float(np.max(np.abs(D - Dm)))
+        erre = float(np.max(np.abs(np.sort(e) - np.sort(emf)) / np.sort(emf)))
+        ok = errD <= tolD and erre <= ROOT_TOL * ev[-1] / ev[0] and abs(c - float(cm)) <= tolD and not rest.any()
+        stats["rootq_house_max_err_over_tol"] = max(stats.get("rootq_house_max_err_over_tol", 0.0), errD / tolD)
+        _cmp(ctx, "_low_rank_root vs Rat model, exact eigh, p = 1 [TOL 1e-12 x kappa]", ok, case,
+             {"e": list(map(float, e)), "c": c}, {"e": list(map(float, emf)), "c": float(cm)}, f"dense diff {errD} allowed {tolD}")
+    ctx.nontrivial(("rootq", case["sub"], d, case["ps"], rank, case["seed"]))
 
 
 # ----------------------------------------------------------------------------- orchestration
 def execute(ctx, cases, stats, tol):
-    cases = [c for c in cases if c.get("kind") in ("pd", "pack", "apply", "root")]
+    cases = [c for c in cases if c.get("kind") in ("pd", "pack", "apply", "root", "mblock", "rootq")]
     by = {}
     for c in cases:
         by.setdefault(c["kind"], []).append(c)
     tasks = []
     for kind, cs in by.items():
-        per = {"pd": 1, "pack": 40, "apply": 24, "root": 16}[kind]
-        if kind == "root":       # few distinct sizes per worker task: fewer XLA compilations
+        per = {"pd": 1, "pack": 40, "apply": 24, "root": 16, "mblock": 12, "rootq": 16}[kind]
+        if kind in ("root", "rootq"):       # few distinct sizes per worker task: fewer XLA compilations
             cs = sorted(cs, key=lambda c: (c["d"], abs(c["rank"])))
         for ch in kit.chunked(cs, per):
             tasks.append({"cases": ch, "tol": tol})
@@ -699,6 +1087,10 @@ def execute(ctx, cases, stats, tol):
             rq = pack_requests(c, o)
         elif c["kind"] == "apply":
             rq = [apply_request(c, o)]
+        elif c["kind"] == "mblock":
+            rq = mblock_requests(c, o)
+        elif c["kind"] == "rootq":
+            rq = [rootq_req1(c, tol)]
         else:
             rq = [root_req1(c, o, tol)]
         spans.append((len(reqs), len(reqs) + len(rq)))
@@ -707,7 +1099,14 @@ def execute(ctx, cases, stats, tol):
     # driver batch 2 (roots, after the external eigh)
     roots = [(i, c) for i, (c, o) in enumerate(pairs) if c["kind"] == "root" and "exception" not in o]
     reqs2 = [root_req2(c, replies[spans[i][0]], stats) for i, c in roots]
-    rep2 = dict(zip([i for i, _ in roots], ctx.driver(reqs2))) if reqs2 else {}
+    rootqs = [(i, c) for i, (c, o) in enumerate(pairs) if c["kind"] == "rootq" and "exception" not in o]
+    specs = {}
+    for i, c in rootqs:
+        if "error" in replies[spans[i][0]]:
+            raise kit.InfraError(f"driver: {replies[spans[i][0]]['error']} on case {c['id']}")
+        specs[i], rq = rootq_req2(c, replies[spans[i][0]])
+        reqs2.append(rq)
+    rep2 = dict(zip([i for i, _ in roots] + [i for i, _ in rootqs], ctx.driver(reqs2))) if reqs2 else {}
     for i, (c, o) in enumerate(pairs):
         rs = replies[spans[i][0]:spans[i][1]]
         for rp in rs:
@@ -721,6 +1120,10 @@ def execute(ctx, cases, stats, tol):
             eval_pack(ctx, c, o, rs, stats)
         elif c["kind"] == "apply":
             eval_apply(ctx, c, o, rs[0], stats)
+        elif c["kind"] == "mblock":
+            eval_mblock(ctx, c, o, rs, stats)
+        elif c["kind"] == "rootq":
+            eval_rootq(ctx, c, o, specs[i], rep2[i], stats)
         else:
             eval_root(ctx, c, o, rs[0], rep2[i], tol, stats)
     return pairs
@@ -782,19 +1185,26 @@ def run(ctx):
         cases.append(gen_apply(rng, i, ctx.tier))
     for i in range(220 if quick else 1300):
         cases.append(gen_root(rng, i))
+    for i in range(60 if quick else 360):
+        cases.append(gen_mblock(rng, i))
+    for i in range(90 if quick else 540):
+        cases.append(gen_rootq(rng, i))
     ctx.cov["rule"] = ("corpus first; full grid of (compression_rank, dim) for _precond_dim/_should_compress; seeded random pack cases "
                        "(d 3..14, all ranks incl. inadmissible, both signs, recognisable integers / generic / special doubles), application "
                        "cases (gradient rank 1..3, dims 1..12, |compression_rank| 1..4 both signs, packed / flagged / dense / skipped axes, "
                        "direct _precondition_block and public preconditioned_grad, eager and jit, dyadic and generic values), root cases "
                        "(d 4..12, |rank| 1..d-3 both signs, padding_start None (both signs, D21) / d / < d with and without garbage in the padded region, "
                        "p in 1..8, ridge 0..1e-3, relative and absolute epsilon, spectra geometric / clustered / rank-deficient / uniform with "
-                       "a gap at the cut). Non-trivial: admissible pack case; application with at least one unflagged packed axis; every "
+                       "a gap at the cut; zero ridge with singular statistics, D26); exact rational root cases (p = 1, signed permutations / Householder, "
+                       "d 4..8, both signs, padded / unpadded, ridge 0 / 2^-10 / 2^-20, exact zeros); multi-block public-path cases (ragged "
+                       "blocks, 2..27 blocks). Non-trivial: admissible pack case; application with at least one unflagged packed axis; every "
                        "root case; should_compress grid points; distinct by parameters and seed")
     ctx.assumptions += [
         "x64, float64 inputs, direct calls (observe_at of the property); a fraction of application and root cases under jit (padding_start traced)",
         "EXACT: bit patterns for pack/unpack; EXACT-DYADIC: application on small integers x powers of two against the Rat model",
-        "TOL: application 1e-12 x (max|g| x product of 1-norm bounds of the applied operators); root 1e-9 x f_max x (1 + lambda_max/gap at the cut + lambda_max/lambda_min of the regularized statistics)",
+        "TOL: application 1e-12 x (max|g| x product of 1-norm bounds of the applied operators); root 1e-12 x f_max x (1 + lambda_max/gap at the cut + lambda_max/lambda_min of the regularized statistics)",
         "external kernels: numpy eigh (specification re-checked at run time, residual <= 1e-10), the real power_iteration for max_ev, libm pow",
+        "zero ridge with singular statistics: null directions have no well-defined float root value (0 or huge depending on the rounding sign); only finiteness and the retained positive part are demanded there; the exact stream covers the case completely",
         "statistics have a spectral gap at the cut (relative gap >= ~1e-3); without it the retained subspace is not numerically defined",
     ]
     pairs = execute(ctx, cases, stats, tol)
@@ -821,7 +1231,7 @@ def replay(ctx, data):
             cases.append({"kind": "pd", "id": "replay", "R": max(1, abs(c["rank"])), "D": max(1, c["dim"])})
     for s in data.get("stage_failures", []):
         dt = s.get("detail")
-        if isinstance(dt, dict) and isinstance(dt.get("case"), dict) and dt["case"].get("kind") in ("pack", "apply", "root"):
+        if isinstance(dt, dict) and isinstance(dt.get("case"), dict) and dt["case"].get("kind") in ("pack", "apply", "root", "mblock", "rootq"):
             cases.append(dt["case"])
     ctx.cov["rule"] = "replay of recorded cases"
     stats = Counter()
